@@ -3,8 +3,26 @@
    proved in Score/*.v about the model Score/ScoreQ.v (tied to domain/analyze.go and
    app/analyze_usecase.go:calculateSummary by Gen/DomainConst.v and the correspondence check). *)
 From Coq Require Import ZArith QArith List.
-From PV Require Import Gen.DomainConst Score.ScoreQ Score.ScoreProofs Score.ScoreMono Score.ScoreSkip.
+From PV Require Import Gen.DomainConst Gen.ScoreGen Score.ScoreQ Score.ScoreProofs Score.ScoreMono Score.ScoreSkip Score.ScoreTie.
 Open Scope Q_scope.
+
+(* the model the theorems below are about is, function by function, the Gallina text generated from
+   domain/analyze.go on this run (translator/gen_score.go -> Gen/ScoreGen.v) *)
+Theorem C15_model_is_the_translated_source :
+  (forall s, go_calculateComplexityPenalty s = complexity_penalty s) /\
+  (forall s nf, go_calculateDeadCodePenalty s nf = dead_code_penalty nf s) /\
+  (forall s, go_calculateDuplicationPenalty s = duplication_penalty s) /\
+  (forall s, go_calculateCouplingPenalty s = coupling_penalty s) /\
+  (forall s, go_calculateCohesionPenalty s = cohesion_penalty s) /\
+  (forall s, go_calculateDependencyPenalty s = dependency_penalty s) /\
+  (forall s, go_calculateArchitecturePenalty s = architecture_penalty s) /\
+  (forall p m, go_normalizeToScoreBase p m = normalize_to_score_base p m) /\
+  (forall p m, go_penaltyToScore p m = penalty_to_score p m) /\
+  (forall sc, go_GetGradeFromScore sc = grade_of sc).
+Proof.
+  exact (conj tie_complexity (conj tie_dead_code (conj tie_duplication (conj tie_coupling (conj tie_cohesion
+        (conj tie_dependency (conj tie_architecture (conj tie_normalize (conj tie_penalty_to_score tie_grade))))))))).
+Qed.
 
 Section C15.
 Variable log10 : Q -> Q.   (* math.Log10: only non-negativity on [1,oo) is used *)
@@ -54,6 +72,7 @@ Theorem C15_skip_never_lowers : forall sel sel' a, analyses_ok a -> sel_le sel s
 Proof. exact (skip_never_lowers log10 log10_nonneg). Qed.
 End C15.
 
+Print Assumptions C15_model_is_the_translated_source.
 Print Assumptions C15_score_range.
 Print Assumptions C15_category_range.
 Print Assumptions C15_score_formula.
